@@ -2,6 +2,7 @@
 import ast
 import os
 
+from harness.lib import pytranslate
 from harness.lib import sx as SX
 
 ID = "C18"
@@ -9,8 +10,8 @@ COQ_DIR = "C18"
 RUN_MOD = "C18.Run"
 MODEL_TARGETS = ["C18/Run.vo"]
 PROOF_TARGETS = ["C18/Lemmas.vo", "C18/LemmasLadder.vo", "C18/LemmasCoord.vo", "C18/LemmasRange.vo", "C18/LemmasSession.vo",
-                 "C18/LemmasMulti.vo"]
-PROPS = ["C18/Props.v"]
+                 "C18/LemmasMulti.vo", "C18/TransEq.vo"]
+PROPS = ["C18/Props.v", "C18/PropsTranslated.v"]
 ALLOWED_AXIOMS = []
 IMPL_TIMEOUT = 10.0
 COQ_SHARD = 100
@@ -55,6 +56,14 @@ TRUSTED_BASE = [
     "float (and other) cell values enter the model as Base.COther (str(v), the int v equals): python's str() of a float and "
     "float == int are computed by the harness",
     "the digest of an object's observation is a polynomial hash modulo 2^61 (Run.hash_sx, mirrored in c18.py)",
+    "for the *_translated theorems (coq/C18/PropsTranslated.v): the shared translator harness/lib/pytranslate.py (Python ast -> Gallina, "
+    "fail closed, NOT verified; `python -m harness.lib.pytranslate --selftest` compares ~4400 calls of 21 translated functions with "
+    "CPython, among them sorted(key=...) on coordinates) and coq/Common/PyLib.v: str.rstrip(chars), len, slices, int(str) for ASCII "
+    "text (ValueError otherwise), tuples, sorted(it, key=f) = all keys first, then the stable order by < on the keys (py_sorted_by; "
+    "< on (int, str, int) tuples lexicographic), list indexing with negative indices, f-strings / + on str, if/elif/else; the hook "
+    "c18._translate hands the translator _coord_sort_key and the body of the single `if range_key is None:` branch of "
+    "XlsObject.get_attr_origin as a function of origins.values() : list of str (the recorded coordinates in insertion order) and "
+    "ws_prefix : str",
 ]
 ASSUMPTIONS = [
     "cell values are None, str, int, bool or float (generated); any other value (datetime, Decimal) enters the model the same way "
@@ -169,8 +178,60 @@ _KEY_FN_REF = ("def _coord_sort_key(coord):\n"
 _SORTED_REF = "cells_coords = sorted(origins.values(), key=_coord_sort_key)"
 
 
+def _translate(src):
+    """_coord_sort_key and the `range_key is None` branch of XlsObject.get_attr_origin (as a function of origins.values() and
+    ws_prefix) of the current source -> coq/gen/C18_Translated.v, by the shared translator harness/lib/pytranslate.py (fail
+    closed); coq/C18/TransEq.v proves them equal to the hand model's coord_sort_key / range_text"""
+    tree = ast.parse(src)
+    gao = _method(_class(tree, "XlsObject"), "get_attr_origin")
+    branches = [n for n in ast.walk(gao) if isinstance(n, ast.If) and isinstance(n.test, ast.Compare)
+                and isinstance(n.test.left, ast.Name) and n.test.left.id == "range_key" and len(n.test.ops) == 1
+                and isinstance(n.test.ops[0], ast.Is) and isinstance(n.test.comparators[0], ast.Constant)
+                and n.test.comparators[0].value is None]
+    if len(branches) != 1:
+        raise pytranslate.Unsupported("get_attr_origin: not exactly one `if range_key is None:` branch")
+    tr = pytranslate.Translator(src, pytranslate.Config(source_name="ak/xlsread.py"))
+    kt = tr.add_function(_KEY_FN_NAME, ["str"])
+    rt = tr.add_block("range_origin_text", branches[0].body, [("origins.values()", None, ("list", "str")), ("ws_prefix", None, "str")])
+    tr.check_hygiene()
+    if kt != ("tuple", ("int", "str", "int")) or rt != "str":
+        raise pytranslate.Unsupported(f"_coord_sort_key returns {kt}, the range-text branch {rt}: (int, str, int) and str expected")
+    return tr.emit("_coord_sort_key, range text of get_attr_origin")
+
+
+def _translation_stub(reason):
+    return pytranslate.stub(pytranslate.Config(source_name="ak/xlsread.py"), reason, [
+        ("T__coord_sort_key", "(v : list Z) : res (Z * list Z * Z)"),
+        ("T_range_origin_text", "(vs : list (list Z)) (p : list Z) : res (list Z)")])
+
+
 def gen_consts(repo):
+    """constants (ast extractor below) + translation (harness/lib/pytranslate.py).  The translation of THIS source (or the stub
+    saying why there is none) is written even when the constant extractor refuses the source; any refusal is raised."""
     src = open(os.path.join(repo, "ak", "xlsread.py")).read()
+    try:
+        translated, terr = _translate(src), None
+    except pytranslate.Unsupported as e:
+        translated, terr = _translation_stub(str(e)), e
+    except (ExtractError, SyntaxError) as e:
+        translated, terr = _translation_stub(str(e)), None      # the extractor below reports it
+    from harness.lib import coqrun
+    try:
+        gens = _gen_consts_only(src)
+    except Exception:
+        with coqrun.Lock():
+            coqrun.write_gen("C18_Translated", translated)
+        raise
+    gens["C18_Translated"] = translated
+    if terr is not None:
+        with coqrun.Lock():
+            for name, text in gens.items():
+                coqrun.write_gen(name, text)
+        raise ExtractError(f"translator (harness/lib/pytranslate.py): {terr}")
+    return gens
+
+
+def _gen_consts_only(src):
     tree = ast.parse(src)
     reader = _class(tree, "_CellReader")
     cbool = _class(tree, "CellBool")
@@ -2697,7 +2758,12 @@ def _shrink_multi(case):
             yield dict(case, objs=case["objs"][:i] + [ob2] + case["objs"][i + 1:], muts=[])
 
 
-TECHNIQUE = ("Coq proofs (structural induction over rows / columns, invariants of the row loop, refinement of the ladder "
+TECHNIQUE = ("Second tie for the range text: _coord_sort_key and the range-text branch of XlsObject.get_attr_origin are translated from the "
+             "current source to Gallina on every run by the shared fail-closed translator harness/lib/pytranslate.py "
+             "(coq/gen/C18_Translated.v), proved equal to the hand model's coord_sort_key / range_text on the coordinates of worksheet "
+             "cells (coq/C18/TransEq.v), range_text_extremes / range_text are restated for the translation (coq/C18/PropsTranslated.v) "
+             "and the translated branch is evaluated on the origins of every ranged attribute of every object of every case (Run.v).  "
+             "First tie: Coq proofs (structural induction over rows / columns, invariants of the row loop, refinement of the ladder "
              "loop to a fill-down specification) on a hand-written Gallina model + per-run correspondence check "
              "(vm_compute vs implementation on generated worksheets) + constants regenerated from the source")
 LEVEL_TEXT = ("Full (model level, all sheets / rule sets, unbounded rows and columns; stated for XlsTableReader with ANY number of rule "
@@ -2737,6 +2803,10 @@ LEVEL_TEXT = ("Full (model level, all sheets / rule sets, unbounded rows and col
               "logic_id = the id attribute values (logic-id), the map entry points (map-reading).  The ladder theorems for one rule set "
               "hold for any set of known names (read_table_k).  Theorems are about the Gallina model; its agreement with "
               "ak/xlsread.py is checked per run, not proved.")
-LEVEL_NOTE = ("Trusted: Coq kernel + vm_compute; fidelity of the hand model (checked by correspondence, not proved); "
+LEVEL_NOTE = ("For translated_key_eq, translated_range_text_eq, range_text_extremes_translated, range_text_translated (closed under the global "
+              "context; 38 statements in all) the trusted part is the translator harness/lib/pytranslate.py + coq/Common/PyLib.v "
+              "(self-tested against CPython, not verified) and the declared parameter types, not the hand model's reading of the sort: "
+              "an edit of _coord_sort_key or of the range-text branch that changes behaviour breaks TransEq.v (or leaves the subset = "
+              "broken proof step).  Otherwise -- Trusted: Coq kernel + vm_compute; fidelity of the hand model (checked by correspondence, not proved); "
               "python str/==/sorting semantics mirrored in the model; the ast extractor and harness.")
 DESIGN_REF = "DESIGN.md section 8, C18"
